@@ -396,7 +396,7 @@ def table_leg(res, rng, n):
         m = ArrayMap()
         ns = {"license": "GPL", "m": m, "tab": m.globalVar(f"8{fmt}"),
               "idx": m.globalVar("I"), "u": m.globalVar("Q")}
-        for k in range(6):
+        for k in range(8):
             ns[f"o{k}"] = m.globalVar("Q")
 
         def program(self):
@@ -412,6 +412,15 @@ def table_leg(res, rng, n):
             e.o4 = (e.u + big) >> sh
             with e.u + big > 5:
                 e.o5 = 1
+            # the register that indexes the table receives the result
+            e.r2 = (e.u & 3) * size
+            e.r3 = (e.idx & 7) * size
+            e.r3 = e.r2 + mm[e.r7 + e.r3 + off]
+            e.o6 = e.r3
+            e.r2 = (e.u & 3) * size
+            e.r4 = (e.idx & 7) * size
+            e.r4 = (e.r2 + 3) * mm[e.r7 + e.r4 + off]
+            e.o7 = e.r4
             e.r0 = 2
             e.exit()
         ns["program"] = program
@@ -438,8 +447,10 @@ def table_leg(res, rng, n):
                 want = [v & M, (v + 1) & M,
                         (v >> sh) & M if fmt.islower() else (v & M) >> sh,
                         1 if v < 0 else 0, sumbig >> sh,
-                        1 if sumbig > 5 else 0]
-                got = [getattr(e, f"o{k}") for k in range(6)]
+                        1 if sumbig > 5 else 0,
+                        ((u & 3) * size + v) & M,
+                        (((u & 3) * size + 3) * v) & M]
+                got = [getattr(e, f"o{k}") for k in range(8)]
                 res.case([desc, u], nontrivial=True)
                 res.count("table_leg_programs")
                 for k, (g, w_) in enumerate(zip(got, want)):
@@ -448,7 +459,9 @@ def table_leg(res, rng, n):
                         what = ["table element", "element + 1",
                                 f"element >> {sh}", "element < 0",
                                 f"(u + {big:#x}) >> {sh}",
-                                f"u + {big:#x} > 5"][k]
+                                f"u + {big:#x} > 5",
+                                "r3 = r2 + table[r3]",
+                                "r4 = (r2 + 3) * table[r4]"][k]
                         res.violation(
                             "unexplained:computed-address-or-large-constant",
                             f"{what}: program {g:#x}, exact {w_:#x} "
@@ -458,11 +471,97 @@ def table_leg(res, rng, n):
                 ld.close()
 
 
+def minsize_leg(res, rng, n):
+    """programs that declare minimumPacketSize: self.pB/pH/pI/pQ[...] as
+    operands and destinations, over packets with all bytes in use; run in the
+    kernel, compared with Python's integers on the packet bytes"""
+    from .. import kern, prog
+    from ebpfcat.arraymap import ArrayMap
+    from ebpfcat.xdp import XDP
+    import struct
+    M = (1 << 64) - 1
+    for _ in range(n):
+        m = ArrayMap()
+        ns = {"license": "GPL", "m": m, "u": m.globalVar("Q"),
+              "minimumPacketSize": rng.choice([48, 64, 100])}
+        widths = {"B": 1, "H": 2, "I": 4, "Q": 8}
+        reads = []
+        stores = []
+        for k in range(6):
+            w = rng.choice("BHIQ")
+            reads.append((w, rng.randrange(0, 24 - widths[w] + 1),
+                          rng.choice(["plain", "+1", ">>3", "neg"])))
+            ns[f"o{k}"] = m.globalVar("Q")
+        for k in range(3):
+            w = rng.choice("BHIQ")
+            stores.append((w, 24 + 8 * k))
+
+        def program(self):
+            e = self
+            for k, (w, off, how) in enumerate(reads):
+                x = getattr(e, "p" + w)[off]
+                x = {"plain": x, "+1": x + 1, ">>3": x >> 3,
+                     "neg": -x}[how]
+                setattr(e, f"o{k}", x)
+            for w, off in stores:
+                getattr(e, "p" + w)[off] = e.u
+            e.r0 = 2
+            e.exit()
+        ns["program"] = program
+        desc = dict(minsize_leg=True, reads=reads, stores=stores)
+        with kern.session() as sess:
+            try:
+                e = type("VfMin", (XDP,), ns)()
+                ld = prog.Loaded(e, sess)
+                ld.load()
+            except Exception as ex:
+                res.violation("unexplained:minimum-packet-size-program-not-"
+                              "generated-or-loaded",
+                              f"{type(ex).__name__}: {str(ex)[-300:]}",
+                              case=desc)
+                continue
+            try:
+                pkt = bytes(rng.getrandbits(8) | 1 for _ in range(120))
+                u = rng.getrandbits(64) | 1 << 63 | 1 << 31
+                e.u = u
+                _, out, _ = ld.run_k(pkt)
+                res.case([desc, u], nontrivial=True)
+                res.count("minsize_leg_programs")
+                for k, (w, off, how) in enumerate(reads):
+                    v = int.from_bytes(pkt[off:off + widths[w]], "little")
+                    want = {"plain": v, "+1": v + 1, ">>3": v >> 3,
+                            "neg": -v}[how] & M
+                    res.count("minsize_leg_results")
+                    if getattr(e, f"o{k}") != want:
+                        res.violation(
+                            "unexplained:minimum-packet-size-accessor",
+                            f"p{w}[{off}] ({how}): program "
+                            f"{getattr(e, f'o{k}'):#x}, exact {want:#x}",
+                            case=desc)
+                        break
+                exp = bytearray(pkt)
+                for w, off in stores:
+                    exp[off:off + widths[w]] = (
+                        u & ((1 << 8 * widths[w]) - 1)).to_bytes(
+                            widths[w], "little")
+                res.count("minsize_leg_results")
+                if bytes(out[:120]) != bytes(exp):
+                    bad = [i for i in range(120) if out[i] != exp[i]]
+                    res.violation(
+                        "unexplained:minimum-packet-size-accessor",
+                        f"stores {stores} of {u:#x}: packet bytes {bad[:12]} "
+                        f"differ from the exact result", case=desc)
+            finally:
+                ld.close()
+
+
 def run_shard(params):
     res = Result()
     rng = random.Random(params["seed"] * 100003 + params["shard"])
     table_leg(res, random.Random(rng.getrandbits(32)),
               max(6, params["n"] // 40))
+    minsize_leg(res, random.Random(rng.getrandbits(32)),
+                max(4, params["n"] // 60))
     use_v_every = 4
     for i in range(params["n"]):
         case = gen_case(rng, params["depth"])
@@ -492,6 +591,9 @@ def replay(v):
         # (the leg is re-run with fresh values: the witness names format,
         # constant and shift, which is where the mechanisms live)
         table_leg(res, random.Random(0), 200)
+        return res
+    if v["case"].get("minsize_leg"):
+        minsize_leg(res, random.Random(0), 200)
         return res
     check_case(v["case"], res)
     return res
